@@ -81,7 +81,33 @@ def make_corpus(tier, seed):
         corpus.append(dict(c, kind="load"))
     for c in collect(c11.expr_cases(), n[3], seed * 7 + 4):
         corpus.append(dict(c, kind="expr"))
+    for c in collect(keytype_cases(), max(40, n[3] // 5), seed * 7 + 5):
+        corpus.append(c)
     return corpus
+
+
+KEY_PALETTE = [["np", "int64", 1], ["np", "int64", 0], ["np", "int32", 2], ["np", "uint8", 1], ["np", "intp", 3],
+               ["py", "int", 2], ["py", "bool", True], ["np", "bool_", True], ["np", "float64", 1.0], ["py", "float", 2.0],
+               ["np", "str_", "k"], ["py", "str", "k"], ["py", "negint", -1], ["np", "int64", -2]]
+
+
+@st.composite
+def keytype_cases(draw):
+    """item keys of numpy / Python scalar types on a list and a dict: the two builds must treat them alike"""
+    # one key per underlying slot: two differently typed keys for one slot are two refs to one cell (aliasing,
+    # outside every quantifier: which of the two definitions wins follows iteration order)
+    keys = draw(st.lists(st.sampled_from(KEY_PALETTE), min_size=1, max_size=3,
+                         unique_by=lambda k: k[2] if isinstance(k[2], str) else int(k[2]) % 4))   # l[-2] is l[2]
+    return {"kind": "keytypes", "keys": keys, "container": draw(st.sampled_from(["l", "m"])),
+            "then_plain": draw(st.booleans()), "a2": draw(st.sampled_from([3.0, -1.5, 0.0]))}
+
+
+def _mk_key(spec):
+    import numpy as np
+    lib, typ, v = spec
+    if lib == "np":
+        return getattr(np, typ)(v)
+    return v
 
 
 # ------------------------------------------------------------------ interpretation (runs in the children)
@@ -177,6 +203,45 @@ def interpret(case):
                 if not run_ops(w, [op], tr, tag=f"[{name}] "):
                     return tr
         return tr
+    if kind == "keytypes":
+        import xdeps
+        data = {"a": 2.0, "l": [0.0, 1.0, 2.0, 3.0], "m": {0: 0.0, 1: 1.0, 2: 2.0, 3: 3.0, "k": 7.0, -1: 9.0, -2: 8.0}}
+        mgr = xdeps.Manager()
+        ref = mgr.ref(data, "r")
+        cont = case["container"]
+
+        def snap():
+            return {"contents": repr(W.canon({"a": data["a"], "l": list(data["l"]), "m": dict(data["m"])})),
+                    "definitions": sorted([str(k), str(t.expr)] for k, t in mgr.tasks.items()),
+                    "dump": sorted(map(list, mgr.dump()))}
+        for i, ks in enumerate(case["keys"]):
+            try:
+                ref[cont][_mk_key(ks)] = ref["a"] * float(i + 1)
+                tr.append(["define", ks, "ok", snap()])
+            except Exception as e:
+                tr.append(["define", ks, "exc", type(e).__name__])
+        if case["then_plain"]:
+            for ks in case["keys"][:1]:
+                try:
+                    plain = ks[2] if ks[1] not in ("bool", "bool_", "float64", "float") else int(ks[2])
+                    ref[cont][plain] = 5.0
+                    tr.append(["plain-assign", plain, "ok", snap()])
+                except Exception as e:
+                    tr.append(["plain-assign", ks, "exc", type(e).__name__])
+        try:
+            ref["a"] = case["a2"]
+            tr.append(["update", "ok", snap()])
+        except Exception as e:
+            tr.append(["update", "exc", type(e).__name__])
+        try:
+            m2 = xdeps.Manager()
+            d2 = {"a": 10.0, "l": [0.0, 0.0, 0.0, 0.0], "m": {0: 0.0, 1: 0.0, 2: 0.0, 3: 0.0, "k": 0.0, -1: 0.0, -2: 0.0}}
+            m2.ref(d2, "r")
+            m2.load(mgr.dump())
+            tr.append(["load", "ok", sorted(map(list, m2.dump()))])
+        except Exception as e:
+            tr.append(["load", "exc", type(e).__name__])
+        return tr
     if kind == "expr":
         from checks import c11
         roots = c11.kw_roots(case, "vals")
@@ -223,6 +288,8 @@ def classify(case):
     cls = ["prog:" + kind]
     if kind == "expr":
         return E.n_ops(case["ast"]) >= 2, cls
+    if kind == "keytypes":
+        return any(k[0] == "np" for k in case["keys"]), cls + ["keytypes:" + k[1] for k in case["keys"]]
     nt = kind in ("pickle", "load")
     model = W.Model(H.dec_init(case))
     for op in case["ops"]:
@@ -240,6 +307,8 @@ def classify(case):
 
 
 def render(case):
+    if case["kind"] == "keytypes":
+        return dict(case)
     if case["kind"] == "expr":
         return {"kind": "expr", "term": E.render(case["ast"]), "keys": [repr(k) for k in case["K"]]}
     out = {"kind": case["kind"], "history": W.render_case(case)}
@@ -292,6 +361,13 @@ def describe_difference(d):
 def shrink_candidates(case):
     """smaller variants of a program (greedy one-step removals), parent side"""
     out = []
+    if case["kind"] == "keytypes":
+        for i in range(len(case["keys"])):
+            if len(case["keys"]) > 1:
+                out.append(dict(case, keys=case["keys"][:i] + case["keys"][i + 1:]))
+        if case["then_plain"]:
+            out.append(dict(case, then_plain=False))
+        return out
     if case["kind"] == "expr":
         for s in E.subterms(case["ast"]):
             if E.has_ref(s):
@@ -312,7 +388,7 @@ def shrink_candidates(case):
 
 def valid(case):
     """a shrunk program must still be inside the generator's domain (acyclic, outside K1)"""
-    if case["kind"] == "expr":
+    if case["kind"] in ("expr", "keytypes"):
         return True
     try:
         model = W.Model(H.dec_init(case))
